@@ -801,7 +801,14 @@ impl Scenario for C14 {
                 }
                 Act::ByteSetRange { from, to } => {
                     for pos in *from..(*to).min(img.len() as u32) {
-                        for val in BYTE_VALUES {
+                        // boundary values, plus neighbours of the value the field currently holds
+                        let o = img[pos as usize];
+                        let rel = [o.wrapping_add(1), o.wrapping_sub(1), o.wrapping_add(2), o.wrapping_sub(2), o.wrapping_mul(2), o / 2];
+                        let mut vals: Vec<u8> = BYTE_VALUES.to_vec();
+                        vals.extend_from_slice(&rel);
+                        vals.sort_unstable();
+                        vals.dedup();
+                        for val in vals {
                             if img[pos as usize] == val {
                                 continue;
                             }
